@@ -158,4 +158,78 @@ def rdsEq (s o : Rds) : Bool :=
 /-- `Rdataset.match(rdclass, rdtype, covers)` -/
 def rdsMatch (s : Rds) (cls typ covers : Nat) : Bool := s.cls == cls && s.typ == typ && s.covers == covers
 
+/-! ## ImmutableRdataset
+
+An rdataset object is a value plus the flag "is an `ImmutableRdataset`".  `ImmutableRdataset` overrides
+`update_ttl`, `add`, `union_update`, `intersection_update`, `update`, `__delitem__`, `__ior__`, `__iand__`,
+`__iadd__`, `__isub__`, `clear` to raise `TypeError("immutable")`; the mutators it does not override
+(`remove`, `discard`, `pop`, `difference_update`, `symmetric_difference_update`, `__ixor__`) fail on the first
+write to its read-only `dns.immutable.Dict` (`TypeError` / `AttributeError`) — so `difference_update` with an
+empty, distinct argument performs no write and returns normally.  All of these are the error `immutable` here. -/
+
+/-- every in-place operation of an rdataset object; binary ones take the other operand's value and whether
+it is the same object -/
+inductive InPlace where
+  | add (rd : Rd) (ttl : Option Nat)
+  | updateTtl (t : Nat)
+  | remove (rd : Rd) | discard (rd : Rd) | pop | clear
+  | delItem (i : Nat) | delSlice (a : Nat) (b : Option Nat) (st : Nat)
+  | unionUpdate | interUpdate | update | diffUpdate | isub | symDiffUpdate
+
+structure Reg where
+  s : Rds
+  imm : Bool
+  deriving DecidableEq, Repr
+
+/-- the operation on a mutable rdataset -/
+def mutApply (sing : List Nat) (s : Rds) (op : InPlace) (o : Rds) (alias : Bool) : RdsR :=
+  match op with
+  | .add rd ttl => rdsAdd sing s rd ttl
+  | .updateTtl t => (updateTtl s t, none)
+  | .remove rd =>
+    (match SetAlg.remove s.items rd with
+     | some v => ({ s with items := v }, none)
+     | none => (s, some .valueError))
+  | .discard rd => ({ s with items := SetAlg.discard s.items rd }, none)
+  | .pop =>
+    (match SetAlg.pop s.items with
+     | some (_, v) => ({ s with items := v }, none)
+     | none => (s, some .keyError))
+  | .clear => ({ s with items := [] }, none)
+  | .delItem i =>
+    (match SetAlg.delItem s.items i with
+     | some v => ({ s with items := v }, none)
+     | none => (s, some .stopIteration))
+  | .delSlice a b st => ({ s with items := SetAlg.delSlice s.items a b st }, none)
+  | .unionUpdate => rdsUnionUpdate sing s o alias
+  | .interUpdate => rdsInterUpdate s o alias
+  | .update => rdsUpdate sing s o
+  | .diffUpdate => rdsDiffUpdate s o alias
+  | .isub => rdsDiffUpdate s o alias
+  | .symDiffUpdate => rdsSymDiffUpdate sing s o alias
+
+/-- the operation on an rdataset object, mutable or immutable -/
+def regApply (sing : List Nat) (r : Reg) (op : InPlace) (o : Rds) (alias : Bool) : Reg × Option RdsErr :=
+  if r.imm then
+    match op with
+    | .diffUpdate => if !alias && o.items.isEmpty then (r, none) else (r, some .immutable)
+    | _ => (r, some .immutable)
+  else
+    let res := mutApply sing r.s op o alias
+    (⟨res.1, false⟩, res.2)
+
+/-- `ImmutableRdataset(rdataset)`: a private copy of the value -/
+def regFreeze (r : Reg) : Reg := ⟨r.s, true⟩
+
+/-- the copying forms (`union`, `intersection`, `difference`, `symmetric_difference`): computed on a mutable
+clone (`_clone_class = Rdataset`), the result wrapped again when the receiver is immutable; `kind` 0..3 -/
+def regFun (sing : List Nat) (r : Reg) (kind : Nat) (o : Rds) : Reg × Option RdsErr :=
+  let res : RdsR :=
+    match kind with
+    | 0 => rdsUnion sing r.s o
+    | 1 => rdsInter r.s o
+    | 2 => rdsDiff r.s o
+    | _ => rdsSymDiff sing r.s o
+  (⟨res.1, r.imm⟩, res.2)
+
 end Model
